@@ -203,12 +203,42 @@ fn run_case(c: &Value, perms: usize) -> Value {
 
 pub fn replay(args: &[String]) {
     let perms = arg_usize(args, "--perms", 5);
+    let jobs = arg_usize(args, "--jobs", 12);
     let mut out = Out::new();
-    for_each_case(|i, c| {
-        let mut o = run_case(&c, perms);
-        o["i"] = json!(i);
-        out.put(&o);
-    });
+    // cases are independent: run them on `jobs` threads, keep the output in input order
+    let mut lines: Vec<String> = vec![];
+    {
+        use std::io::BufRead;
+        for line in std::io::stdin().lock().lines() {
+            let line = line.expect("stdin");
+            if !line.trim().is_empty() {
+                lines.push(line);
+            }
+        }
+    }
+    let lines = std::sync::Arc::new(lines);
+    let next = std::sync::Arc::new(std::sync::atomic::AtomicUsize::new(0));
+    let results = std::sync::Arc::new(std::sync::Mutex::new(vec![None; lines.len()]));
+    let mut handles = vec![];
+    for _ in 0..jobs.max(1) {
+        let (lines, next, results) = (lines.clone(), next.clone(), results.clone());
+        handles.push(std::thread::Builder::new().stack_size(64 << 20).spawn(move || loop {
+            let i = next.fetch_add(1, std::sync::atomic::Ordering::SeqCst);
+            if i >= lines.len() {
+                break;
+            }
+            let c: Value = serde_json::from_str(&lines[i]).expect("case is not JSON");
+            let mut o = run_case(&c, perms);
+            o["i"] = json!(i);
+            results.lock().unwrap()[i] = Some(o);
+        }).unwrap());
+    }
+    for h in handles {
+        h.join().expect("worker thread");
+    }
+    for o in results.lock().unwrap().iter() {
+        out.put(o.as_ref().expect("missing result"));
+    }
 }
 
 /// TopoSort cases -> the public lexicographical_topological_sort
